@@ -28,24 +28,33 @@ def build():
     tr.time = clock
     log = []
 
+    fns = {}
+
     def mk(name, tag):
         def fn(dur, *args, **kwargs):
             log.append((tag, args, kwargs))
             clock.now += dur
+            if kwargs.get('nest'):
+                # re-entrancy under the same __name__: call another traced
+                # function (f3 shares the name 'beta' with f2), then go on
+                inner, idur, post = kwargs['nest']
+                fns[inner](idur, 'inner')
+                clock.now += post
             if kwargs.get('boom'):
                 raise kwargs['boom']
             return kwargs.get('ret', (tag, args))
         fn.__name__ = name
         return tr.trace()(fn)
 
-    return tr, clock, log, {'f1': mk('alpha', 'f1'), 'f2': mk('beta', 'f2'),
-                            'f3': mk('beta', 'f3')}
+    fns.update({'f1': mk('alpha', 'f1'), 'f2': mk('beta', 'f2'),
+                'f3': mk('beta', 'f3')})
+    return tr, clock, log, fns
 
 
 NAME = {'f1': 'alpha', 'f2': 'beta', 'f3': 'beta'}
 OPS = [('call', 'f1', 0.25), ('call', 'f1', 1.0), ('call', 'f2', 0.5),
        ('call', 'f3', 2.0), ('raise', 'f1', 0.125), ('raise', 'f3', 4.0),
-       ('clear',)]
+       ('clear',), ('nest', 'f2', 0.5)]
 QUERIES = [(avg, mh) for avg in (True, False) for mh in (None, 1, 2, 3)]
 
 
@@ -62,8 +71,12 @@ def run_history(part, hist):
         else:
             _, f, dur = op
             sentinel = object()
-            args, kwargs = (i, 'x'), {'ret': sentinel, 'k': i}
+            # keyword names that collide with the wrapper's own parameters
+            args, kwargs = (i, 'x'), {'ret': sentinel, 'k': i, 'sync': True,
+                                      'func': 'user-value', 'average': 0}
             n0 = len(log)
+            if op[0] == 'nest':
+                kwargs['nest'] = ('f3', 0.25, 1.0)
             if op[0] == 'raise':
                 exc = Boom(i)
                 kwargs['boom'] = exc
@@ -88,13 +101,26 @@ def run_history(part, hist):
                     ref.setdefault(NAME[f], []).append(dur)
                     part.count('raising_call_recorded')
             else:
-                out = fns[f](dur, *args, **kwargs)
+                try:
+                    out = fns[f](dur, *args, **kwargs)
+                except Exception as e:  # noqa
+                    part.violation(f'call-raised:{type(e).__name__}',
+                                   f'history {hist}: op {i}: the traced '
+                                   f'function raised {e!r} although the '
+                                   'undecorated one returns', det)
+                    return
                 if out is not sentinel:
                     part.violation('return-value', f'history {hist}: op {i} '
                                    f'returned {out!r}', det)
                     return
-                ref.setdefault(NAME[f], []).append(dur)
-            if len(log) != n0 + 1 or log[-1] != (f, args, kwargs):
+                if op[0] == 'nest':
+                    # inner call completes first, then the outer one
+                    ref.setdefault(NAME['f3'], []).append(0.25)
+                    ref.setdefault(NAME[f], []).append(dur + 0.25 + 1.0)
+                else:
+                    ref.setdefault(NAME[f], []).append(dur)
+            nlog = 2 if op[0] == 'nest' else 1
+            if len(log) != n0 + nlog or log[n0] != (f, args, kwargs):
                 part.violation('arguments', f'history {hist}: op {i} called '
                                f'the function {len(log) - n0} times with '
                                f'{log[n0:]}', det)
@@ -185,8 +211,9 @@ def main(run: core.Run):
     core.pmap(run, sync_case, list(simdist.FIXED_SCHEDULES), procs=1)
     run.c['distinct_nontrivial'] = len(run.distinct.get('nontrivial', ()))
     run.rule = (
-        f'every history of length <= {depth} over the 7-operation alphabet '
-        '{completed calls of 3 traced functions (two sharing a __name__) '
+        f'every history of length <= {depth} over the 8-operation alphabet '
+        '{completed calls of 3 traced functions (two sharing a __name__), a '
+        'nested call of one inside the other under the same name, '
         'with dyadic durations, calls that raise, clear_trace}; after every '
         'operation all 8 get_trace(average, max_history in {None,1,2,3}) '
         'queries are compared with a list/dict reference under an injected '
